@@ -146,3 +146,56 @@ func VerifH_LineDeadContext() {
 	symx.Assert(log.runs[1] <= 1, "at most once")
 	symx.Reach("end")
 }
+
+// C14/H2e (single line, placements of Stop): Stop issued by a call running on the lane with another call
+// already queued behind it, and Stop issued before Run (the lane is started afterwards): Stop returns, both
+// accepted calls complete with their own results, a later call is refused, the lane goroutine terminates.
+func VerifH_LineStopInside() {
+	wg := &sync.WaitGroup{}
+	qSize := symx.Concrete(symx.Int("qSize"), 0, 2)
+	l := NewLine(wg, WithQSize(qSize))
+	beforeRun := symx.Bool("stopBeforeRun")
+	symx.Assume(!beforeRun || qSize != 1) // two calls must fit into the queue of a lane that does not run yet
+	if !beforeRun {
+		l.Run()
+	}
+	var ran [3]int
+	gate := make(chan struct{})
+	call := func(ctx context.Context, req interface{}) (interface{}, error) {
+		id := req.(int)
+		ran[id]++
+		if id == 0 && !beforeRun {
+			<-gate
+			l.Stop()
+		}
+		return 100 + id, nil
+	}
+	var r [3]interface{}
+	var e [3]error
+	tA := symx.Go("callerA", func() { r[0], e[0] = l.AsyncCall(verifNewCtx(), NewCallCtx(call, 0)) })
+	symx.WaitQuiescent()
+	tB := symx.Go("callerB", func() { r[1], e[1] = l.AsyncCall(verifNewCtx(), NewCallCtx(call, 1)) })
+	symx.WaitQuiescent()
+	symx.Assert(symx.Blocked(tA) && symx.Blocked(tB), "both calls are accepted and wait (lane busy or not yet running)")
+	if beforeRun {
+		tS := symx.Go("stopper", func() { l.Stop() })
+		symx.WaitQuiescent()
+		symx.MustFinish(tS, "Stop returns without the lane having run")
+		l.Run()
+	} else {
+		close(gate)
+	}
+	symx.WaitQuiescent()
+	symx.MustFinish(tA, "a call accepted before Stop completes")
+	symx.MustFinish(tB, "a call accepted before Stop completes")
+	symx.Assert(e[0] == nil && r[0].(int) == 100 && ran[0] == 1, "caller A receives the result of its own call, run once")
+	symx.Assert(e[1] == nil && r[1].(int) == 101 && ran[1] == 1, "caller B receives the result of its own call, run once")
+	tC := symx.Go("late", func() { r[2], e[2] = l.AsyncCall(verifNewCtx(), NewCallCtx(call, 2)) })
+	symx.WaitQuiescent()
+	symx.MustFinish(tC, "a call after Stop returns at once")
+	symx.Assert(e[2] == pipe.ErrQueueClosed && ran[2] == 0, "after Stop no new call is accepted")
+	tW := symx.Go("waiter", func() { wg.Wait() })
+	symx.WaitQuiescent()
+	symx.MustFinish(tW, "after Stop the lane goroutine terminates")
+	symx.Reach("end")
+}
